@@ -10,6 +10,7 @@ external solver (microlp), whose raw answer is the parameter `mlp`.  Import-free
 -/
 import Rooc.Compile
 import Rooc.SolverWrap
+import Rooc.Pre.Program
 namespace Rooc
 namespace Pipeline
 variable {α : Type} [Arith α]
@@ -36,6 +37,44 @@ def solveUsingAuto (m : Model α) (tol : α) (maxSteps : Nat) (mlp : LinModel α
     | .ok s => .solved lm s
     | .err v => .solver v
     | .panic => .panic
+
+/-! ### the whole default path from a program: `RoocSolver::try_new(text)?.solve_using(auto_solver)`
+
+    let model = parser.parse()?;                                      // CompilationError
+    self.model.create_type_checker(..).map_err(Transform)?;           // RoocSolverError::Transform
+    let compiled = self.model.transform(..).map_err(Transform)?;      // RoocSolverError::Transform
+    Linearizer::linearize(compiled).map_err(Linearization)?;  func(&linearized).map_err(Solver)?
+
+on the iteration fragment of `Rooc/Pre/Program.lean` (`ProgM`: `where` constants, `define` declarations with iterations,
+objective, constraints with iterations; the text is the harness's rendering of the same abstract program).  Error sources
+of the front end on the fragment: the parser's static arity rule (`ProgM.arityOk`, a `CompilationError` of `try_new`); the
+TYPE CHECKER (`create_type_checker`), which is NOT modelled for whole programs (C19 models its tables and rules) and is a
+PARAMETER here — `typeChecks` = the verdict of `RoocParser::type_check` on the text; it is stricter than `transform`
+(`parse_and_transform` skips it: e.g. an iteration over a literal `[]` or a destructuring `(v)` of pairs transforms but
+does not type-check); and the transform errors `IErr` (undeclared / redeclared names, destructuring, overflow).  Both of
+the latter surface as `RoocSolverError::Transform`. -/
+
+/-- answer of the one-shot entry point on a program. -/
+inductive TextOutcome (α : Type) where
+  /-- `RoocSolver::try_new` failed: `Err(CompilationError)` -/
+  | parseError
+  /-- `Err(RoocSolverError::Transform(_))` raised by `create_type_checker` -/
+  | typeError
+  /-- `Err(RoocSolverError::Transform(_))` raised by `transform` -/
+  | transformError (e : Pre.IErr)
+  /-- everything after `transform` -/
+  | compiled (o : Outcome α)
+  deriving Inhabited
+
+/-- `RoocSolver::try_new(text)?.solve_using(auto_solver)` as ONE function of the abstract program (type checker and
+external solver as parameters). -/
+def solveProg (p : Pre.ProgM) (typeChecks : Bool) (tol : α) (maxSteps : Nat) (mlp : LinModel α → MlpOutcome α) :
+    TextOutcome α :=
+  if !p.arityOk then .parseError else
+  if !typeChecks then .typeError else
+  match (Pre.transformCore p : Except Pre.IErr (Model α)) with
+  | .error e => .transformError e
+  | .ok m => .compiled (solveUsingAuto m tol maxSteps mlp)
 
 end Pipeline
 end Rooc
